@@ -163,7 +163,7 @@ def main(tier, write_baseline=False):
             continue
         seen.add(o["name"])
         cand = next(iter(fails.values()), None)
-        fi = rule_inputs.get(o["name"]) or ({"ir": json.loads(json.dumps(cand[0], default=str)), "what": cand[1]} if cand else None)
+        fi = rule_inputs.get(o["name"]) or common.model_replay("contracts.C06", o) or ({"ir": json.loads(json.dumps(cand[0], default=str)), "what": cand[1]} if cand else None)
         run.violation(o["name"], "obligation refuted by %s on path %s%s" % (o["backend"], " ".join(o["trace"]), (": " + "; ".join(o.get("notes") or [])[:300]) if o.get("notes") else ""),
                       failing_input=fi, solver_output={"model": o["model"], "smt2": (o["smt2"] or "")[:5000]})
     for kind, (ir, what) in fails.items():
